@@ -348,6 +348,23 @@ def _walk_step(body, cursor, excl, assume):
 def check_collect(repo, rep, mod):
     base = mod.cls('ContextBase')
     m = base.methods.get('collect_functions')
+    if m is None:
+        raise AnalysisError('anchor vanished: ContextBase.collect_functions')
+    _check_walker(repo, rep, mod, m)
+    # a subclass that brings its own collect_functions replaces the walk:
+    # it is held to the same obligations (layer by layer from itself
+    # outward, one query per layer, stop at an exclusive layer)
+    for ci in mod.classes.values():
+        if ci is base:
+            continue
+        m2 = ci.methods.get('collect_functions')
+        if m2 is not None:
+            _check_walker(repo, rep, mod, m2)
+    # Context.get_functions reports exclusivity of the name it looked up
+    _check_get_functions(repo, rep, mod)
+
+
+def _check_walker(repo, rep, mod, m):
     loops = [n for n in model.walk_shallow(m.node)
              if isinstance(n, ast.While)]
     ok = len(loops) == 1
@@ -400,7 +417,9 @@ def check_collect(repo, rep, mod):
     else:
         rep.ob('R17d', m.key + '/exclusive-stops', False, why,
                loc=mod.loc(m.node))
-    # Context.get_functions reports exclusivity of the name it looked up
+
+
+def _check_get_functions(repo, rep, mod):
     c = mod.cls('Context').methods['get_functions']
     rets = [r for r in model.walk_shallow(c.node)
             if isinstance(r, ast.Return)]
@@ -585,6 +604,47 @@ def _member_iterations(fnode, attr):
     return out
 
 
+def check_child_of_self(repo, rep, mod):
+    """R17h: create_child_context() returns a context constructed *on the
+    context itself*: its parent chain starts with the object it was asked
+    of, so everything visible there (own layer, parents, linked / merged
+    members) is visible in the child and later writes to it are seen."""
+    n = 0
+    for ci in mod.classes.values():
+        m = ci.methods.get('create_child_context')
+        if m is None:
+            continue
+        selfn = m.params()[0]
+        rets = [r for r in model.walk_shallow(m.node)
+                if isinstance(r, ast.Return)]
+        if not rets and ci.node.name == 'ContextBase' and any(
+                isinstance(x, ast.Raise) for x in ast.walk(m.node)):
+            continue
+        n += 1
+        bad = []
+        for r in rets:
+            v = norm.subst_locals(m.node, r.value, only_pure=False) \
+                if r.value is not None else None
+            ok = isinstance(v, ast.Call) and (
+                (v.args and isinstance(v.args[0], ast.Name) and
+                 v.args[0].id == selfn) or any(
+                    isinstance(k.value, ast.Name) and k.value.id == selfn
+                    for k in v.keywords)) and not (
+                isinstance(v.func, ast.Attribute) and
+                v.func.attr == 'create_child_context')
+            if not ok:
+                bad.append(r)
+        rep.ob('R17h', m.key, bool(rets) and not bad,
+               '%s.create_child_context must return a context built on the '
+               'context itself (Cls(self)); `%s` gives the child another '
+               'parent chain, so names and functions visible in this '
+               'context are not visible in its child' % (
+                   ci.node.name, model.norm(bad[0]) if bad else 'no return'),
+               loc=mod.loc(bad[0] if bad else m.node),
+               construct=model.norm(bad[0]) if bad else '')
+    rep.floor('create_child_context implementations', n, 3)
+
+
 def check_multi(repo, rep, mod):
     ci = mod.cls('MultiContext')
     init = ci.methods['__init__']
@@ -732,6 +792,9 @@ def run(repo, rep):
              'exclusive, appends non-empty layers in walk order')
     rep.rule('R17e', 'WRITES-GO-TO-THE-OWN-LAYER')
     rep.rule('R17f', 'MULTI IS A MERGE / LINKED IS A PROXY')
+    rep.rule('R17h', 'CHILD-OF-SELF: create_child_context() of every '
+             'context class returns a context constructed on the context '
+             'itself')
     rep.rule('R17g', 'LOOKUPS-ARE-PURE: get_data, __contains__, keys, '
              'get_functions, collect_functions never write to the context')
     rep.explanation = (
@@ -749,4 +812,5 @@ def run(repo, rep):
     check_store_on_all_paths(repo, rep, mod)
     check_reads_are_pure(repo, rep, mod)
     check_multi(repo, rep, mod)
+    check_child_of_self(repo, rep, mod)
     rep.count(context_classes=len(CLASSES))
